@@ -73,12 +73,20 @@ class watchdog:
     def _fire(self, signum, frame):
         raise Hang(f'operation did not return within {self.seconds}s')
 
+    # The budget is counted in CPU time of this process (ITIMER_PROF): an operation that loops for ever burns it and is reported, while
+    # a process that is merely descheduled on a loaded machine is not (a wall-clock alarm of 10 s fired once, spuriously, during a sweep
+    # with a load average above 12: not reproducible, corrected here).  A wall-clock alarm of 30 x the budget stays as a fallback for
+    # an operation that would block without computing.
     def __enter__(self):
         self.old = signal.signal(signal.SIGALRM, self._fire)
-        signal.alarm(self.seconds)
+        self.oldp = signal.signal(signal.SIGPROF, self._fire)
+        signal.setitimer(signal.ITIMER_PROF, self.seconds)
+        signal.alarm(self.seconds * 30)
 
     def __exit__(self, *exc):
+        signal.setitimer(signal.ITIMER_PROF, 0)
         signal.alarm(0)
+        signal.signal(signal.SIGPROF, self.oldp)
         signal.signal(signal.SIGALRM, self.old)
         return False
 
